@@ -324,23 +324,46 @@ def pipeline_program(params):
     def program(s):
         base = tempfile.mkdtemp(prefix="verif-pl-", dir=os.environ.get("TMPDIR", "/tmp"))
         sm = seam_mod.Seam(w, split_reads=split, log=False).install()
+        import errno as _errno
+        armed = [(call, n, getattr(_errno, en)) for call, n, en in params.get("faults", [])]
         saved = (w.mod("observers.inotify_c").os, events.os, inotify.os)
         w.mod("observers.inotify_c").os = _Chain(w.mod("observers.inotify_c").os, WalkProxy("reader"))
         events.os = WalkProxy("emitter")
+        cwd = os.getcwd()
         try:
-            return body(s, base)
+            return body(s, base, sm, armed)
         finally:
+            os.chdir(cwd)
             w.mod("observers.inotify_c").os, events.os, inotify.os = saved
             sm.cleanup()
             sm.remove()
             shutil.rmtree(base, ignore_errors=True)
 
-    def body(s, base):
+    def body(s, base, sm, armed):
         drv = Driver(s, base)
         drv.names = {k: v.encode("latin-1") if isinstance(v, str) else bytes(v) for k, v in params.get("names", {}).items()}
         drv.setup(start, outside)
         rootb = drv.R
-        root = rootb if spell == "bytes" else os.fsdecode(rootb)
+        import pathlib
+
+        if spell == "bytes":
+            root = rootb
+        elif spell == "path":
+            root = pathlib.Path(os.fsdecode(rootb))
+        elif spell == "slash":
+            root = os.fsdecode(rootb) + "/"
+        elif spell == "bslash":
+            root = rootb + b"/"
+        elif spell == "rel":
+            os.chdir(base)
+            root = "R"
+        elif spell == "relbytes":
+            os.chdir(base)
+            root = b"R"
+        else:
+            root = os.fsdecode(rootb)
+        given = os.fsencode(str(root) if isinstance(root, pathlib.Path) else root)
+        given2 = given.rstrip(b"/")
         inv = {v: k for k, v in drv.names.items()}
 
         def proj(p):
@@ -351,11 +374,11 @@ def pipeline_program(params):
                 b = os.fsencode(p)
             except Exception:  # noqa: BLE001
                 return {"ty": tag, "p": ["?"]}
-            if b == rootb:
+            if b == given or b == given2:   # the root itself, with or without the trailing separator it was given with
                 return {"ty": tag, "p": []}
-            if not b.startswith(rootb + b"/"):
+            if not b.startswith(given2 + b"/"):
                 return {"ty": tag, "p": ["?"]}
-            comps = b[len(rootb) + 1:].split(b"/")
+            comps = b[len(given2) + 1:].split(b"/")
             out = []
             for c in comps:
                 if c in inv:
@@ -379,9 +402,20 @@ def pipeline_program(params):
                       syn=bool(event.is_synthetic), ty=(a or b or {"ty": "none"})["ty"],
                       ty2=(b or a or {"ty": "none"})["ty"])
 
-        s.log("cfg", recursive=bool(recursive), full=bool(full), ty=spell, paced=bool(params.get("paced", True)),
+        s.log("cfg", recursive=bool(recursive), full=bool(full), ty="bytes" if isinstance(root, bytes) else "str", spell=spell, paced=bool(params.get("paced", True)),
               filter=sorted(filt) if filt is not None else [], contract=bool(params.get("contract", False)))
-        obs = inotify.InotifyObserver(generate_full_events=full)
+        polling = params.get("observer") == "polling"
+        if polling:
+            obs = w.mod("observers.polling").PollingObserver(timeout=1.0)
+        else:
+            obs = inotify.InotifyObserver(generate_full_events=full)
+
+        def drain():
+            if polling:
+                s.wait_quiescent()
+                s.fire_manual_timers()
+            s.wait_quiescent()
+
         obs.schedule(Rec(1), root, recursive=recursive)
         if filt is not None:
             classes = [getattr(events, n) for n in filt]
@@ -389,6 +423,9 @@ def pipeline_program(params):
         obs.start()
         s.wait_quiescent()
         s.log("quiescent", tree=drv.listing(), phase="start")
+        # fault directives count kernel calls made AFTER the watch was set up
+        for call, n, en in armed:
+            sm.faults[(call, sm.ncalls.get(call, 0) + n - 1)] = en
 
         nops = [0]
 
@@ -405,16 +442,16 @@ def pipeline_program(params):
                     continue
                 drv.tree[rel] = "file"
                 s.log("probe", path=list(rel), depth=len(rel), tag=tag)
-            s.wait_quiescent()
+            drain()
             s.log("quiescent", tree=drv.listing(), phase="probe")
 
         def drive():
             for op in ops:
                 if op[0] == "drain":
-                    s.wait_quiescent()
+                    drain()
                     s.log("quiescent", tree=drv.listing(), phase="drain")
                 elif op[0] == "probe":
-                    s.wait_quiescent()
+                    drain()
                     s.log("quiescent", tree=drv.listing(), phase="drain")
                     probe_round("mid")
                 else:
@@ -422,7 +459,9 @@ def pipeline_program(params):
                     s.log("opb", n=nops[0], op=drv.describe(op))
                     drv.do(op)
                     s.log("op", n=nops[0], tree=drv.listing())
-            s.wait_quiescent()
+            if params.get("no_final_drain"):
+                return  # stop() will race with the library threads while events are still flowing
+            drain()
             s.log("quiescent", tree=drv.listing(), phase="end")
             if final_probe and os.path.isdir(drv.R):
                 probe_round("final")
@@ -461,8 +500,9 @@ def pipeline_program(params):
         r.update(extra)
         return r
 
-    if prio:
-        wrapped.sched_kw = {}
+    if params.get("observer") == "polling":
+        # the poll timer (stopped_event.wait(timeout)) only fires when the driver asks for a poll
+        wrapped.sched_kw = {"manual_timer": lambda task, label: label == "evwait"}
     return wrapped
 
 
